@@ -46,6 +46,13 @@ guards proved sufficient in `Props/C01Sflow`; of these, `hlen < IPv4HLen` is the
 `slice p.data[hlen:]` (`from? d hlen`; `hlen` is 20 … 60), and the `index p.data[0]` that computes `hlen` comes after
 the 20-octet test (`Packet.decodeIPv4_safe`).  A changed bound, a new branch or a reordered test changes the list
 and breaks `guards_reviewed` in the property that owns the file (C19 reader, C03 ipfix, C06 v9, C08 v5, C07 sflow+packet).
+
+`nonfatalIpfix` / `nonfatalV9` / `nonfatalV5` (F29 / F30): the declaration of `nonfatalError` in each of the three decoders
+and every use of the identifier.  The declaration must be the struct wrapper `struct { error }`: as `type nonfatalError error`
+(netflow/v9 until F4, netflow/v5 until F29) the type-switch case matches every error.  The constructions are the models' non-fatal
+classes: IPFIX `unknownTpl`, `zeroRec`, `unknownElem` (scope / field loop) and, since the F30 repair, `emptyRec` ("failed to
+decodeData") = `Ipfix.nonfatalErr`; NetFlow v9 `unknownElem` (twice), `unknownTpl`, `zeroRec` = `Err.nonfatal`; NetFlow v5 none —
+`V5.decode` returns a message or an error, never both.  Obligations: `C09.nonfatal_reviewed`, `C08.v5_nonfatal_reviewed`.
 -/
 namespace Vflow.Spec.Sites
 
